@@ -25,6 +25,47 @@ def clocks_for(c):
     return d
 
 
+def grammar_scenarios():
+    """Systematic family: every program in which the main thread and a
+    second thread X each issue up to two calls from a small alphabet against
+    one clock (X optionally starting 0.25 s later).  Tasks are distinct
+    functions; one of them re-schedules itself once."""
+    out = []
+    for c in ('s', 't', 'a'):
+        alpha = [['sched', c, 0], ['sched', c, 0.5], ['sched', c, 1.0],
+                 ['clear', c]]
+        if c != 'a':
+            alpha.append(['sched_abs', c, 1.0])   # AppClock has none
+        if c == 't':
+            alpha.append(['tempo', 't', 4.0])
+        seqs = [[a] for a in alpha] + [[a, b] for a in alpha for b in alpha]
+        for ms in seqs:
+            for xs in seqs:
+                for lead in (0, 0.25):
+                    nsched = sum(1 for o in ms + xs if o[0].startswith('sch'))
+                    if nsched == 0:
+                        continue
+                    k = 0
+                    funcs = {}
+                    actors = {'main': [], 'X': []}
+                    if lead:
+                        actors['X'].append(['sleep', lead])
+                    for who, ops in (('main', ms), ('X', xs)):
+                        for o in ops:
+                            if o[0].startswith('sch'):
+                                fid = f'f{k}'
+                                funcs[fid] = {'returns': [0.5, None]} \
+                                    if k == 0 else {}
+                                k += 1
+                                actors[who].append(o + [fid])
+                            else:
+                                actors[who].append(list(o))
+                    out.append(('G', {'clocks': clocks_for(c),
+                                      'funcs': funcs, 'actors': actors,
+                                      'horizon': 5.0}))
+    return out
+
+
 def scenarios(tier):
     out = []
     thorough = tier == 'thorough'
@@ -229,6 +270,32 @@ def check_trace(prog, res):
     expect_add = {}   # name -> (queue, expected prio) after a numeric return
     cleared = {}      # queue -> names snapshot at clear-begin
     horizon = prog.get('horizon', 4.0)
+    # a tempo / beats change made from a plain thread is not atomic with
+    # respect to the clock thread: what happens on that clock at the very
+    # instant of the change (same virtual time) is not decided by the
+    # statement - timing clauses are skipped for that instant only
+    racy = {}
+    for e in res['trace']:
+        if e[0] == 'tempo-set' and e[1] in prog.get('actors', {}):
+            racy.setdefault(_q(prog, e[3]), set()).add(e[5])
+    # if a task of that clock really was awakened at such an instant, the
+    # base of the clock's map after the change depends on the interleaving
+    # inside the setter: the reference map is not trusted from then on
+    tainted = {}
+    for e in res['trace']:
+        if e[0] in ('wake', 'res'):
+            q0 = _q(prog, e[7])
+            if e[3] in racy.get(q0, ()):
+                tainted[q0] = min(tainted.get(q0, e[3]), e[3])
+
+    class _Racy:
+        def __init__(self, q):
+            self.q = q
+
+        def __contains__(self, phys):
+            return phys in racy.get(self.q, ()) or \
+                (self.q in tainted and phys >= tainted[self.q])
+    racy_view = {q0: _Racy(q0) for q0 in set(racy) | set(tainted)}
     calls = {}        # task name -> (queue, expected prio) of a pending call
     actors = set(prog.get('actors', {}))
     for e in res['trace']:
@@ -244,8 +311,10 @@ def check_trace(prog, res):
                 calls[fid] = (q0, t0 + delta)
         if k == 'add':
             _, q, prio, name, seq, phys = e
-            pending.setdefault(q, {})[name] = [prio, seq, phys]
+            pending.setdefault(q, {})[name] = [prio, seq, phys, False]
             want = calls.pop(name, None)
+            if phys in racy_view.get(q, ()):
+                want = None
             if want is not None and prio != float('inf') and \
                     (want[0] != q or want[1] != prio):
                 bad('scheduled-time-wrong', list(want), [q, prio],
@@ -254,7 +323,7 @@ def check_trace(prog, res):
             exp = expect_add.pop(name, None)
             if exp is not None:
                 eq, eprio = exp
-                if eq != q or eprio != prio:
+                if eq != q or (eprio is not None and eprio != prio):
                     bad('reschedule-time-wrong', [eq, eprio], [q, prio],
                         f'{name}: numeric return must re-schedule relative '
                         'to the scheduled time (AppClock: to the present)')
@@ -270,8 +339,10 @@ def check_trace(prog, res):
                     f'{name} not pending on {q}', e,
                     'awakened twice, after clear/stop, or on a wrong clock')
                 continue
-            prio, seq, addphys = pq.pop(name)
-            for other, (p2, s2, _) in pq.items():
+            prio, seq, addphys, _opt = pq.pop(name)
+            for other, (p2, s2, _, opt2) in pq.items():
+                if opt2:
+                    continue    # may have been removed by a racing clear()
                 if (p2, s2) < (prio, seq):
                     bad('wake-out-of-order', [other, p2, s2],
                         [name, prio, seq],
@@ -282,16 +353,18 @@ def check_trace(prog, res):
                 due = tref[q].b2s(prio)
             else:
                 due = prio
-            if phys < due:
+            timing = phys not in racy_view.get(q, ()) and \
+                addphys not in racy_view.get(q, ())
+            if timing and phys < due:
                 bad('early-wake', f'>= {due}', phys, name)
             limit = max(due, addphys) + late
-            if phys > limit:
+            if timing and phys > limit:
                 bad('late-wake', f'<= {limit}', phys,
                     f'{name} due {due}, scheduled at {addphys}, injected '
                     f'lateness {late}: waited for an unrelated deadline')
             if kind == 'system' and logical != prio:
                 bad('logical-time-wrong', prio, logical, name)
-            if kind == 'tempo' and beats != prio:
+            if kind == 'tempo' and beats != prio and timing:
                 bad('logical-beats-wrong', prio, beats, name)
             wakes[name] = wakes.get(name, 0) + 1
             spec = funcs.get(name, {})
@@ -301,9 +374,14 @@ def check_trace(prog, res):
                 r = None
             if isinstance(r, (int, float)) and not isinstance(r, bool):
                 expect_add[name] = (q, (phys if kind == 'app' else prio) + r)
+                if not timing:
+                    expect_add[name] = (q, None)
         elif k == 'clear-begin':
             q = _q(prog, e[2])
             cleared[q] = {n: v[1] for n, v in pending.get(q, {}).items()}
+            # the removal takes effect somewhere between begin and end
+            for v in pending.get(q, {}).values():
+                v[3] = True
         elif k in ('clear-end', 'stop-end'):
             q = _q(prog, e[2])
             snap = cleared.pop(q, None)
@@ -313,6 +391,12 @@ def check_trace(prog, res):
             for n, seq in (snap or {}).items():
                 if n in pq and pq[n][1] == seq:
                     del pq[n]
+            if k == 'clear-end':
+                # scheduled while the clear() call was in progress: the
+                # statement does not say which of the two wins
+                for n, v in pq.items():
+                    if n not in (snap or {}) or (snap or {})[n] != v[1]:
+                        v[3] = True
         elif k == 'tempo-set':
             _, who, what, cid, v, phys, t = e
             if what == 'tempo':
@@ -326,7 +410,9 @@ def check_trace(prog, res):
     # missed wake-ups: still pending in the model though due before horizon
     late = res['late_total']
     for q, pq in pending.items():
-        for name, (prio, seq, addphys) in pq.items():
+        for name, (prio, seq, addphys, opt) in pq.items():
+            if opt:
+                continue
             due = tref[q].b2s(prio) if qkind[q] == 'tempo' else prio
             if max(due, addphys) + late < horizon:
                 bad('missed-wake', f'{name} awakened by '
@@ -339,10 +425,11 @@ def check_trace(prog, res):
             # a stopped clock fires nothing any more (checked through the
             # wake events); what its dead queue still holds is not observable
             continue
-        model = sorted(pending.get(q, {}))
+        must = sorted(n for n, v in pending.get(q, {}).items() if not v[3])
+        may = sorted(pending.get(q, {}))
         real = sorted(n for _, n in lst)
-        if model != real:
-            bad('pending-set-differs', model, real, q)
+        if not (set(must) <= set(real) <= set(may)):
+            bad('pending-set-differs', {'must': must, 'may': may}, real, q)
     return dis
 
 
@@ -406,6 +493,27 @@ def work(job):
     return acc.result()
 
 
+def work_batch(job):
+    """Several small scenario jobs in one process."""
+    total = None
+    for j in job['jobs']:
+        r = work(j)
+        if total is None:
+            total = r
+        else:
+            for k in ('ev', 'st', 'tr', 'tv', 'nt', 'nviol'):
+                total[k] += r.get(k, 0)
+            total['out'] = sorted(set(total['out']) | set(r['out']))
+            total['samples'] = (total['samples'] + r['samples'])[:3]
+            total['viol'] += r['viol']
+            for k, v in r.get('extra', {}).items():
+                if isinstance(v, (int, float)):
+                    total['extra'][k] = total['extra'].get(k, 0) + v
+        if any(v['kind'] in ('deadlock', 'livelock') for v in r['viol']):
+            break
+    return total or progenum.Acc().result()
+
+
 def _same_instant(res):
     seen = {}
     for e in res['trace']:
@@ -464,5 +572,24 @@ def main(ctx):
         progenum.run(ctx, MODNAME, 'work', jobs, mode='rt', maxtasks=1,
                      bound=f'<= {max_pre} preemptions, <= {max_late} '
                            'lateness deviations')
+    # systematic grammar family: thorough = all programs under (1, 1);
+    # quick = a seed-selected 1/16 slice under (1, 0)
+    gs = grammar_scenarios()
+    if ctx.tier == 'quick':
+        k = core.pick_slice(ctx.seed, 16)
+        part = gs[k::16]
+        gb = (1, 0)
+        label = (f'grammar family, 1/16 slice chosen by seed (not '
+                 f'exhaustive), <= 1 preemption')
+    else:
+        part = gs
+        gb = (1, 1)
+        label = 'grammar family (all programs), <= 1 preemption, <= 1 late'
+    jobs = [{'name': n, 'prog': p, 'max_pre': gb[0], 'max_late': gb[1]}
+            for n, p in part]
+    progenum.run(ctx, MODNAME, 'work_batch',
+                 [{'jobs': jobs[i::64]} for i in range(64) if jobs[i::64]],
+                 mode='rt', maxtasks=1, bound=label)
+    ctx.extra['grammar_programs'] = len(part)
     ctx.extra['scenarios'] = len(scs)
     ctx.extra['bounds_completed'] = [list(b) for b in bounds]
